@@ -14,8 +14,8 @@ KINDS = ['ret', 'listed', 'listedsub', 'foreign', 'base']
 # whatever is returned), raises TypeError (foreign unless the spec lists it - the error class a wrong call of the machinery itself
 # would raise), returns None
 KINDS_X = KINDS + ['retexc', 'retforeignexc', 'typeerr', 'retnone', 'group_listed', 'group_mixed', 'basegroup']
-FKINDS = ['function', 'lambda', 'method', 'partial', 'instance']
-NAMED = {'function': True, 'lambda': True, 'method': True, 'partial': False, 'instance': False}
+FKINDS = ['function', 'lambda', 'method', 'partial', 'instance', 'injecting']
+NAMED = {'function': True, 'lambda': True, 'method': True, 'partial': False, 'instance': False, 'injecting': True}
 LOGS = ['disabled', 'warn_level', 'error_level']
 SPECS = ['class', 'tuple', 'tuple_base_sub']
 SPECS_X = SPECS + ['tuple_with_typeerror', 'empty_tuple', 'exception_itself']
@@ -121,8 +121,14 @@ def run_impl(cases):
 
     class Holder:
         def m(self, *a, **k): return f(*a, **k)
+    def needs_session(session, first, second, *, x):       # what a functools.wraps-based decorator that INJECTS an argument wraps:
+        return f(first, second, x=x)                        # its introspected signature is not how the wrapper is called
+
+    @functools.wraps(needs_session)
+    def injecting(*a, **k):
+        return needs_session('session', *a, **k)
     callables = {'function': f, 'lambda': lambda *a, **k: f(*a, **k), 'method': Holder().m, 'partial': functools.partial(f),
-                 'instance': CallableObj()}
+                 'instance': CallableObj(), 'injecting': injecting}
     try:
         for case in cases:
             x = case['x']; seq = x['kinds']; attempts = case['c']['attempts']
